@@ -344,7 +344,7 @@ def parse_dump(text):
             continue
         kind, _, rest = line.partition("\t")
         if kind.startswith("x:"):
-            extra.append((kind[2:], rest))
+            extra.append((kind[2:], rest, len(main)))
         else:
             main.append((kind, rest))
     return main, extra
@@ -361,14 +361,15 @@ def gotype_batch(ctx, items):
 # Python mirror of the Coq guard predicates (the Coq evaluation is authoritative)
 # --------------------------------------------------------------------------------------
 def bare_idents(t, inpkg_src=True):
-    """identifiers a rendered type uses without a qualifier (superset over placements)"""
+    """identifiers a rendered type uses without a qualifier (types of the source package are
+    bare only when the output is in-package)"""
     out = set()
 
     def f(x):
         k = x["k"]
         if k == "basic" and x["n"] != "unsafe.Pointer":
             out.add(x["n"])
-        elif k in ("named", "alias") and (x["pkg"] is None or x["pkg"] == ""):
+        elif k in ("named", "alias") and (x["pkg"] is None or (x["pkg"] == "" and inpkg_src)):
             out.add(x["n"])
         elif k == "tparam":
             out.add(x["n"])
@@ -462,28 +463,35 @@ def assertion_file(m, k, placement):
 ASSERT_FILES = {"in": "zz_assert.go", "xt": "zz_assert_x_test.go", "out": "zz_assert.go"}
 
 
-def go_check(root, tests=True):
-    """Type-check every package of the module (and its test packages). Returns error lines."""
+def go_check(root):
+    """Type-check every package of the module, test packages included (go build for the
+    ordinary packages; go list -test -export compiles the test variants without linking).
+    Returns {(source package name, placement): [normalised messages]}."""
     env = dict(os.environ, GOPROXY="off", GOFLAGS="-mod=mod")
-    errs = []
+    lines = []
     p = run(["go", "build", "-gcflags=-e", "./..."], cwd=root, env=env, timeout=900)
-    errs += (p.stdout + p.stderr).decode(errors="replace").split("\n")
-    if tests:
-        p = run(["go", "vet", "-vettool=/bin/true", "./..."], cwd=root, env=env, timeout=900)
-        errs += (p.stdout + p.stderr).decode(errors="replace").split("\n")
-    return [e for e in errs if re.match(r"^\S+\.go:\d+", e.strip()) or e.startswith("vet:")]
-
-
-def normalise_err(e):
-    e = re.sub(r"^\S*?([^/\s]+/[^/\s]+\.go):\d+:\d+:\s*", r"\1: ", e.strip())
-    return e
+    lines += (p.stdout + p.stderr).decode(errors="replace").split("\n")
+    p = run(["go", "list", "-test", "-export", "-e", "-f", "{{.ImportPath}}", "./..."], cwd=root, env=env, timeout=900)
+    lines += p.stderr.decode(errors="replace").split("\n")
+    res = {}
+    for e in lines:
+        mm = re.match(r"^(?:\./)?((?:mocks/)?[^/\s:]+)/([^/\s:]+\.go):\d+:\d+:\s*(.*)$", e.strip())
+        if not mm:
+            continue
+        d, f, msg = mm.groups()
+        pl = "out" if d.startswith("mocks/") else ("xt" if f.endswith("_test.go") else "in")
+        key = (d.split("/")[-1], pl)
+        msg = re.sub(r'"[^"]*/([^"/]+)"\.', r"\1.", msg)
+        if msg not in res.setdefault(key, []):
+            res[key].append(msg)
+    return res
 
 
 # --------------------------------------------------------------------------------------
 # Correspondence run
 # --------------------------------------------------------------------------------------
 def dump_cases(ctx, m, root, placements=PLACEMENTS):
-    """Runs the dump probe; returns {(k, placement): {"obs": [...], "extra": [...], "raw": [(kind, text)]}} and the mockery log."""
+    """Runs the dump probe; returns (rc, log, {(k, placement): {"obs": [...], "extra": [...], "raw": [(kind, text)]}})."""
     rc, log = run_mockery(ctx, root, config(m, root, PROBES / "c14_dump.templ", DUMP_FILES, placements), "dump")
     res = {}
     batch, where = [], []
@@ -495,10 +503,11 @@ def dump_cases(ctx, m, root, placements=PLACEMENTS):
             if not f.exists():
                 res[(k, pl)] = {"missing": True, "obs": [], "extra": [], "raw": []}
                 continue
-            main, extra = parse_dump(f.read_bytes().decode(errors="surrogateescape"))
+            main, extra = parse_dump(f.read_bytes().decode("utf-8", "surrogateescape"))
             res[(k, pl)] = {"raw": main, "extra": extra, "obs": [None] * len(main)}
+            fill_guards(m, k, pl, res[(k, pl)])
             for j, (kind, text) in enumerate(main):
-                if kind == "raw":
+                if kind in ("raw", "guard"):
                     res[(k, pl)]["obs"][j] = text
                 else:
                     batch.append((kind, text))
@@ -525,14 +534,14 @@ def coq_strlist(ctx, term, name="show"):
 
 
 def explain_mismatch(ctx, term, r):
-    """First differing dump entry of one case: (index, observed text, observed S-expression, model value)."""
+    """First differing dump entry of one case: index, observed Go text, its S-expression, the model's value."""
     model = coq_strlist(ctx, "model_dump (%s)" % term, name="explain")
     obs = r["obs"]
     for j in range(max(len(model), len(obs))):
         a = model[j] if j < len(model) else "<end of model dump>"
         b = obs[j] if j < len(obs) else "<end of observed dump>"
         if a != b:
-            ctxt = [t for _, t in r["raw"][max(0, j - 6):j]]
+            ctxt = [t for _, t in r["raw"][max(0, j - 8):j]]
             return {"index": j, "observed_text": r["raw"][j] if j < len(r["raw"]) else None, "observed": b, "model": a, "preceding": ctxt}
     return None
 
@@ -545,3 +554,336 @@ def reemit(ctx, m, root, placements=PLACEMENTS):
             if selected(s, pl) and out_path(m, k, root, pl, REEMIT_FILES).exists():
                 out_path(m, k, root, pl, ASSERT_FILES).write_text(assertion_file(m, k, pl))
     return rc, log
+
+
+def structure(raw):
+    """Positions of the interface / method / variable markers in a dump."""
+    ifaces = []
+    for j, (kind, text) in enumerate(raw):
+        if kind != "raw":
+            continue
+        if text == "#I":
+            ifaces.append({"at": j, "name": raw[j + 1][1], "methods": []})
+        elif text == "#M":
+            ifaces[-1]["methods"].append({"at": j, "name": raw[j + 1][1], "vars": []})
+        elif text in ("#P", "#R"):
+            ifaces[-1]["methods"][-1]["vars"].append({"at": j, "name": raw[j + 1][1], "type": raw[j + 3][1]})
+    return ifaces
+
+
+def fill_guards(m, k, pl, r):
+    """The harness' own evaluation of the guard capture_free (Gen/Render.v) for every method:
+    does an OFFERED name equal an identifier that a type of the same signature uses without
+    a qualifier?  Written into the dump at the 'guard' entries; the Coq evaluation of the
+    same predicate on the model's data is compared with it like every other entry."""
+    s = m["srcs"][k]
+    table = known_ifaces(dict(m, **s))
+    sigs = {}
+    for i in selected(s, pl):
+        for mm in method_set(i, table):
+            sigs[(i["name"], mm["n"])] = mm["sig"]
+    raw = r["raw"]
+    gpos = [j for j, (kind, _) in enumerate(raw) if kind == "guard"]
+    g = 0
+    r["captured"] = []
+    for i in structure(raw):
+        for mt in i["methods"]:
+            sig = sigs.get((i["name"], mt["name"]))
+            val = "true"
+            if sig is not None:
+                idents = set()
+                for p in sig["params"] + sig["results"]:
+                    idents |= bare_idents(p["t"], pl == "in")
+                cap = [v["name"] for v in mt["vars"] if v["name"] in idents]
+                if cap:
+                    val = "false"
+                    r["captured"].append((i["name"], mt["name"], cap))
+            if g < len(gpos):
+                raw[gpos[g]] = ("guard", val)
+            g += 1
+
+
+def extra_checks(m, k, pl, r):
+    """Consistency of the remaining fields of the data model (outside the Coq model)."""
+    s = m["srcs"][k]
+    errs = []
+    raw = r["raw"]
+    for key, rest, at in r["extra"]:
+        if key == "pkgname":
+            want = {"in": s["name"], "xt": s["name"] + "_test", "out": "mk"}[pl]
+            if rest != want:
+                errs.append("PkgName %r, configured %r" % (rest, want))
+        elif key == "srcq":
+            want = "" if pl == "in" else s["name"] + "."
+            if rest != want:
+                errs.append("SrcPkgQualifier %r, expected %r" % (rest, want))
+        elif key == "var":
+            f = rest.split("\t")
+            j = max(j for j, (kd, tx) in enumerate(raw[:at]) if kd == "raw" and tx in ("#P", "#R"))
+            if f[0] != raw[j + 1][1]:
+                errs.append("Var.Name %r differs from Name %r" % (f[0], raw[j + 1][1]))
+            if f[1] != raw[j + 3][1]:
+                errs.append("Var.TypeString %r differs from TypeString %r" % (f[1], raw[j + 3][1]))
+    return errs
+
+
+# --------------------------------------------------------------------------------------
+# The check
+# --------------------------------------------------------------------------------------
+def corpus_srcs():
+    f = VERIF / "corpus" / "C14" / "edge.json"
+    out = []
+    if f.exists():
+        for s in json.loads(f.read_text()):
+            out.append({"path": MOD + "/" + s["name"], "name": s["name"], "ifaces": s["ifaces"], "nonascii": s.get("nonascii", False)})
+    return out
+
+
+def witness_module(kind):
+    w = json.loads((VERIF / "corpus" / "C14" / "witness.json").read_text())[kind]
+    return {"mod": MOD, "ext": gen_pkgs.EXT, "std": gen_pkgs.STD,
+            "srcs": [{"path": MOD + "/" + s["name"], "name": s["name"], "ifaces": s["ifaces"], "nonascii": s.get("nonascii", False)} for s in w]}
+
+
+def process(ctx, m, root, placements=PLACEMENTS, oracle=True):
+    """Everything for one module: dump + correspondence cases + re-emission oracle."""
+    write_module(m, root)
+    p0 = run(["go", "build", "./..."], cwd=root, env=dict(os.environ, GOPROXY="off", GOFLAGS="-mod=mod"), timeout=900)
+    if p0.returncode != 0:
+        raise RuntimeError("harness bug: the generated module does not compile before mockery runs:\n" + (p0.stdout + p0.stderr).decode(errors="replace")[-3000:])
+    rc, log, res = dump_cases(ctx, m, root, placements)
+    out = {"rc_dump": rc, "log_dump": log[-2000:], "cases": res, "oracle": {}, "extra": {}}
+    for (k, pl), r in res.items():
+        if not r.get("missing"):
+            e = extra_checks(m, k, pl, r)
+            if e:
+                out["extra"][(k, pl)] = e
+    if oracle:
+        rc2, log2 = reemit(ctx, m, root, placements)
+        out["rc_reemit"], out["log_reemit"] = rc2, log2[-2000:]
+        out["oracle"] = go_check(root)
+        for k, s in enumerate(m["srcs"]):
+            for pl in placements:
+                if selected(s, pl) and not out_path(m, k, root, pl, REEMIT_FILES).exists():
+                    out["oracle"].setdefault((s["name"], pl), []).append("mockery wrote no file for the re-emission probe")
+    return out
+
+
+def sub_module(m, k, iface=None, method=None):
+    """m restricted to source package k (optionally one interface / one explicit method)."""
+    s = json.loads(json.dumps(m["srcs"][k]))
+    if iface is not None:
+        s["ifaces"] = [i for i in s["ifaces"] if i["name"] == iface]
+        if method is not None:
+            for i in s["ifaces"]:
+                i["methods"] = [x for x in i["methods"] if x["n"] == method]
+                i["embeds"] = []
+    mm = dict(m, srcs=[s])
+    mark(mm)
+    return mm
+
+
+def shrink_oracle(ctx, m, k, pl, tag):
+    """Smallest sub-input (one interface, then one method) on which the oracle still fails."""
+    name = m["srcs"][k]["name"]
+    best = sub_module(m, k)
+    n = [0]
+
+    def fails(mm):
+        n[0] += 1
+        root = ctx.scratch / ("shr_%s_%d" % (tag, n[0]))
+        r = process(ctx, mm, root, placements=(pl,))
+        return r["oracle"].get((name, pl))
+    for i in m["srcs"][k]["ifaces"]:
+        c = sub_module(m, k, i["name"])
+        if not selected(c["srcs"][0], pl):
+            continue
+        e = fails(c)
+        if e:
+            best = c
+            for x in i["methods"]:
+                c2 = sub_module(m, k, i["name"], x["n"])
+                e2 = fails(c2)
+                if e2:
+                    return c2, e2
+            return best, e
+    return best, fails(best)
+
+
+KNOWN_SYMPTOMS = {
+    "C14-name-captures-inner-type": r"is not a type|\(type\) is not an expression|\(variable of type .*\) is not a type",
+    "C14-lowercase-type-parameter": r"undefined: [a-z]\w*",
+}
+
+
+def module_stats(m, hist):
+    def f(t):
+        hist["type:" + t["k"]] = hist.get("type:" + t["k"], 0) + 1
+    for s in m["srcs"]:
+        table = known_ifaces(dict(m, **s))
+        for i in s["ifaces"]:
+            hist["interfaces"] = hist.get("interfaces", 0) + 1
+            if i["tparams"]:
+                hist["generic interfaces"] = hist.get("generic interfaces", 0) + 1
+            if i["embeds"]:
+                hist["interfaces with embedded interfaces"] = hist.get("interfaces with embedded interfaces", 0) + 1
+            if i.get("_unexp"):
+                hist["interfaces only rendered in-package (not nameable elsewhere)"] = hist.get("interfaces only rendered in-package (not nameable elsewhere)", 0) + 1
+            for mm in method_set(i, table):
+                hist["methods"] = hist.get("methods", 0) + 1
+                if mm["sig"]["variadic"]:
+                    hist["variadic methods"] = hist.get("variadic methods", 0) + 1
+                for p in mm["sig"]["params"] + mm["sig"]["results"]:
+                    hist["params+results"] = hist.get("params+results", 0) + 1
+                    kind = "unnamed" if p["n"] in ("", "_") else "named"
+                    hist["names:" + kind] = hist.get("names:" + kind, 0) + 1
+                    walk(p["t"], f)
+
+
+def check(ctx, only=None):
+    gate = proof_gate(ctx)
+    if not ctx.build_tree(drivers=["gotype"]):
+        ctx.write_evidence(gate, 0, 0, "build failed", [])
+        return
+    known = {k["id"]: k for k in load_known("C14")}
+    hist, samples = {}, []
+    evaluations = 0
+    nontrivial = set()
+    oracle_failed = False
+    corr_bad = []
+
+    # ---------------- main stream (+ corpus) ----------------
+    if only is not None:
+        modules = only
+    else:
+        nmod, nsrc = (10, 30) if ctx.thorough() else (1, 26)
+        modules = []
+        for j in range(nmod):
+            m = gen_module(ctx.rng, nsrc)
+            if j == 0:
+                m["srcs"] += corpus_srcs()
+            steer(m)
+            modules.append(m)
+    for j, m in enumerate(modules):
+        mark(m)
+        module_stats(m, hist)
+        root = ctx.scratch / ("mod%d" % j)
+        out = process(ctx, m, root)
+        keys = sorted(out["cases"])
+        terms = [case_term(m, k, pl, out["cases"][(k, pl)]["obs"]) for k, pl in keys]
+        bad, errs = coq_mismatches(ctx, COQ_MODS, terms, shard=8)
+        evaluations += len(keys) + sum(1 for k, s in enumerate(m["srcs"]) for pl in PLACEMENTS if selected(s, pl))
+        for (k, pl) in keys:
+            r = out["cases"][(k, pl)]
+            hist["files:" + pl] = hist.get("files:" + pl, 0) + 1
+            aliased = any(kind == "raw" and j3 > 0 and r["raw"][j3 - 1][0] == "raw" and tx and r["raw"][j3 + 1][1].startswith(tx + " \"")
+                          for j3, (kind, tx) in enumerate(r["raw"][:-1]))
+            renamed = any(kind == "raw" and re.fullmatch(r"[A-Za-z_]\w*?\d+", tx or "") for kind, tx in r["raw"])
+            if aliased or renamed:
+                nontrivial.add(hashlib.sha256("\n".join(map(str, r["obs"])).encode("utf-8", "replace")).hexdigest())
+            if aliased:
+                hist["files with an aliased import"] = hist.get("files with an aliased import", 0) + 1
+            if r.get("captured"):
+                hist["files inside class C14-name-captures-inner-type (main stream)"] = hist.get("files inside class C14-name-captures-inner-type (main stream)", 0) + 1
+        if len(samples) < 2 and keys:
+            k0, pl0 = keys[0]
+            samples.append({"package": m["srcs"][k0]["name"], "placement": pl0, "dump_head": [t for _, t in out["cases"][(k0, pl0)]["raw"][:40]]})
+        # ---- oracle failures
+        byname = {s["name"]: k for k, s in enumerate(m["srcs"])}
+        reported = 0
+        for (name, pl), msgs in sorted(out["oracle"].items()):
+            if name not in byname:
+                continue
+            k = byname[name]
+            r = out["cases"].get((k, pl), {})
+            text = "\n".join(msgs)
+            if r.get("captured") and re.search(KNOWN_SYMPTOMS["C14-name-captures-inner-type"], text) and "C14-name-captures-inner-type" in known:
+                ctx.known("C14-name-captures-inner-type: %s/%s %s: %s" % (name, pl, r["captured"][:2], msgs[0][:120]))
+                continue
+            oracle_failed = True
+            if reported >= 2:
+                continue
+            reported += 1
+            small, e = shrink_oracle(ctx, m, k, pl, "m%d_%s_%s" % (j, name, pl))
+            rp = ctx.write_replay("oracle-%s-%s" % (name, pl), {
+                "what": "the Go type checker rejects the source re-emitted from the template data model (or its mutual assignability with the source interface)",
+                "messages": (e or msgs)[:12], "placement": pl, "module": small, "full_package_messages": msgs[:12]})
+            ctx.violation(rp)
+        for (k, pl), e in sorted(out["extra"].items())[:2]:
+            oracle_failed = True
+            rp = ctx.write_replay("datamodel-%s-%s" % (m["srcs"][k]["name"], pl), {"what": e[:10], "placement": pl, "module": sub_module(m, k)})
+            ctx.violation(rp)
+        if out["rc_dump"] != 0 or out.get("rc_reemit", 0) != 0:
+            oracle_failed = True
+            rp = ctx.write_replay("mockery-failed-%d" % j, {"what": "mockery exited with an error on a probe template", "dump_log": out["log_dump"], "reemit_log": out.get("log_reemit"), "module": m})
+            ctx.violation(rp)
+        # ---- correspondence
+        for i in bad:
+            corr_bad.append((j, keys[i], terms[i], out["cases"][keys[i]]))
+        for e in errs:
+            corr_bad.append((j, None, None, {"coq_error": e}))
+
+    # ---------------- witness streams of the known findings ----------------
+    if only is None:
+        for kind, kid in (("capture", "C14-name-captures-inner-type"), ("lower", "C14-lowercase-type-parameter")):
+            w = witness_module(kind)
+            mark(w)
+            out = process(ctx, w, ctx.scratch / ("wit_" + kind), placements=("in",))
+            evaluations += 2
+            msgs = [x for v in out["oracle"].values() for x in v]
+            keys = sorted(out["cases"])
+            terms = [case_term(w, k, pl, out["cases"][(k, pl)]["obs"]) for k, pl in keys]
+            bad, errs = coq_mismatches(ctx, COQ_MODS, terms, shard=8)
+            for i in bad:
+                corr_bad.append(("witness-" + kind, keys[i], terms[i], out["cases"][keys[i]]))
+            hit = [x for x in msgs if re.search(KNOWN_SYMPTOMS[kid], x)]
+            if kid in known and hit and re.search(known[kid]["symptom"], "\n".join(msgs)):
+                ctx.known("%s: witness %s: %s" % (kid, w["srcs"][0]["ifaces"][0]["name"], hit[0][:140]))
+            else:
+                rp = ctx.write_replay("known-finding-changed-" + kind, {
+                    "what": "the witness of known finding %s no longer shows the listed symptom (fixed? then move the entry to 'fixed' and drop the guard)" % kid,
+                    "observed_messages": msgs[:10], "module": w, "obligation": "known/C14.json entry " + kid})
+                ctx.violation(rp, nofail=True)
+
+    # ---------------- verdicts for proofs / correspondence ----------------
+    if not gate["ok"] and not oracle_failed:
+        ctx.violation(gate["replay"], nofail=True)
+    if corr_bad:
+        detail = []
+        for j, key, term, r in corr_bad[:3]:
+            if term is None:
+                detail.append(r)
+                continue
+            try:
+                ex = explain_mismatch(ctx, term, r)
+            except Exception as e:      # noqa
+                ex = {"error": str(e)[-800:]}
+            mm = modules[j] if isinstance(j, int) else witness_module(j.split("-")[1])
+            mark(mm)
+            detail.append({"package": mm["srcs"][key[0]]["name"], "placement": key[1], "first_difference": ex, "module": sub_module(mm, key[0])})
+        rp = ctx.write_replay("correspondence", {
+            "what": "the model Gen/Render.v and the implementation disagree on the template data of %d file(s)" % len(corr_bad),
+            "obligation": "correspondence Harness/C14.v check_case (every accessor of the data model, as S-expressions)",
+            "examples": detail})
+        ctx.violation(rp, nofail=not oracle_failed)
+
+    ctx.write_evidence(gate, evaluations, len(nontrivial),
+                       "one evaluation = one output file's complete data-model dump compared with the model (every accessor of every method/parameter) or one package x placement type-checked by the re-emission oracle; non-trivial = the file has an aliased import or a name changed by collision resolution; distinct by hash of the dump",
+                       samples,
+                       extra={"input_histogram": hist, "model_mismatches": len(corr_bad), "oracle_failed": oracle_failed,
+                              "mockery_runs": 2 * len(modules) + (4 if only is None else 0)},
+                       assumptions=["go/types method-set completion and method order are recomputed by the harness (exported names by name, then unexported) and are inputs of the model",
+                                    "go/parser (harness/go/gotype) is trusted to read Go type expressions; identifier visibility (exported/unexported across packages) is not modelled: interfaces that cannot be named from another package are rendered in-package only",
+                                    "template_funcs.Exported is a parameter of the model (property C16); the harness instantiates it for ASCII names",
+                                    "the model describes the tree with fixes c14-varname-first-rune, c14-variadic-underlying, c14-tparam-names-visible applied"])
+
+
+def replay(ctx, path):
+    d = json.loads(open(path).read())
+    mods = []
+    if "module" in d:
+        mods.append(d["module"])
+    for e in d.get("examples", []):
+        if "module" in e:
+            mods.append(e["module"])
+    check(ctx, only=mods)
